@@ -61,6 +61,13 @@ func c10Pair(seed uint64, variant int) *lib.Pair {
 	p.New.PutFile("fresh.bin", lib.RandomBytes(int64(r.Range(10, 400)), r.Uint64()))
 	p.New.PutDir("d")
 	p.New.PutSymlink("l", "a.bin")
+	// a fresh file whose single DATA message is framed in EXACTLY 65536 bytes (a growth step of the reader's buffer)
+	for n := 65536 - 12; n <= 65536; n++ {
+		if proto.Size(&pwr.SyncOp{Type: pwr.SyncOp_DATA, Data: make([]byte, n)}) == 65536 {
+			p.New.PutFile("exact-frame.bin", lib.RandomBytes(int64(n), r.Uint64()))
+			break
+		}
+	}
 	return p
 }
 
@@ -438,10 +445,17 @@ func (cr *c10Runner) feedPatch(stream []byte, desc string) {
 	fmt.Fprintf(os.Stderr, "mutant %s\n", desc)
 	s := cr.seeds
 	cr.n++
+	whitelist := 0 // 1: empty whitelist (every series is skipped), 2: only new file 1
 	apply := func(dry bool) error {
 		p, err := patcher.New(seeksource.FromBytes(stream), lib.Quiet())
 		if err != nil {
 			return err
+		}
+		switch whitelist {
+		case 1:
+			p.SetSourceIndexWhitelist(map[int64]bool{})
+		case 2:
+			p.SetSourceIndexWhitelist(map[int64]bool{1: true})
 		}
 		tp := fspool.New(p.GetTargetContainer(), s.oldDir)
 		var b bowl.Bowl
@@ -462,6 +476,10 @@ func (cr *c10Runner) feedPatch(stream []byte, desc string) {
 	}
 	cr.call("patcher+freshbowl", desc, func() error { return apply(false) })
 	cr.call("patcher+drybowl", desc, func() error { return apply(true) })
+	// partial application: the series of files outside the whitelist go through the skip path
+	whitelist = 1 + cr.n%2
+	cr.call("patcher+whitelist+drybowl", desc, func() error { return apply(true) })
+	whitelist = 0
 	cr.call("rediff", desc, func() error {
 		rc, err := rediff.NewContext(rediff.Params{PatchReader: seeksource.FromBytes(stream), Consumer: lib.Quiet(), Partitions: 2})
 		if err != nil {
@@ -585,11 +603,15 @@ func c10Run(c lib.Case, env *lib.Env) lib.Result {
 		}
 		hdr := &pwr.PatchHeader{Compression: comp.Settings()}
 		valid, _ := lib.EncodeStream(lib.MagicPatch, hdr, ps.Flat(), comp)
+		step := 97
+		if len(valid) > 150000 {
+			step = 97 * (len(valid)/150000 + 1) // long streams: about the same number of interior cuts
+		}
 		if s.Mode == "trunc" {
 			// every byte for uncompressed streams <= 8 KiB; every 97th byte above; first/last 512 bytes of compressed ones
 			for cut := 0; cut < len(valid); cut++ {
 				if s.Comp == "none" {
-					if len(valid) > 8192 && cut%97 != 0 && cut > 600 && cut < len(valid)-600 {
+					if len(valid) > 8192 && cut%step != 0 && cut > 600 && cut < len(valid)-600 {
 						continue
 					}
 				} else if cut > 512 && cut < len(valid)-512 && cut%211 != 0 {
@@ -817,7 +839,7 @@ func init() {
 	lib.Register(&lib.Property{
 		ID:          "C10",
 		Level:       "fault_enumeration",
-		Rule:        "seed streams: valid plain and optimized (ForceMapAll) patches of a small pair, the first-install patch of the same new build against an EMPTY old build (multi-op file, whole-file op, empty file, fresh file, dir, symlink), its signature, three overlays; each re-framed uncompressed, GZIP and BROTLI by the independent encoder (every message carries its true length; the two containers are never mutated). (a) truncation at EVERY byte of uncompressed streams <= 8 KiB (every 97th byte plus the first/last 600 above; first/last 512 + every 211th byte of compressed ones); (b) field mutation: every index/span/length/seek field of every message set to {-1,0,1,L-1,L,L+1,2^31-1,2^31,2^32,2^62} (and -L-1, -2^62 for seeks), op/series kinds set to every other legal and to unknown values, two fields damaged together (block index + span / file index + block index / seek + add with sums that wrap or land back in range; a data op turned into a block range), signature values with each hash-list variant handed to ComputeHashInfo directly, end markers dropped / duplicated / inserted early, sync headers swapped, add longer than the old file, copy empty, Eof flipped / dropped, series appended, signatures with n-1 / n+1 / 0 / 1 / k / 2n hashes and damaged hash fields, overlay SKIP negative/huge, FRESH empty, ops dropped / duplicated. Every mutant goes to patcher.New/Resume with fresh and dry bowl, rediff.NewContext/Optimize, ReadSignature+ComputeHashInfo+validating pool+AssertValid, OverlayPatchContext.Patch; oracle: the call returns (recover in the caller, child-exit attribution for panics in other goroutines, quiescence detector for hangs). distinct = distinct (stream, mode, framing, chunk, seed)",
+		Rule:        "seed streams: valid plain and optimized (ForceMapAll) patches of a small pair, the first-install patch of the same new build against an EMPTY old build (multi-op file, whole-file op, empty file, fresh file, dir, symlink), its signature, three overlays; each re-framed uncompressed, GZIP and BROTLI by the independent encoder (every message carries its true length; the two containers are never mutated). (a) truncation at EVERY byte of uncompressed streams <= 8 KiB (every 97th byte plus the first/last 600 above; first/last 512 + every 211th byte of compressed ones); (b) field mutation: every index/span/length/seek field of every message set to {-1,0,1,L-1,L,L+1,2^31-1,2^31,2^32,2^62} (and -L-1, -2^62 for seeks), op/series kinds set to every other legal and to unknown values, two fields damaged together (block index + span / file index + block index / seek + add with sums that wrap or land back in range; a data op turned into a block range), signature values with each hash-list variant handed to ComputeHashInfo directly, end markers dropped / duplicated / inserted early, sync headers swapped, add longer than the old file, copy empty, Eof flipped / dropped, series appended, signatures with n-1 / n+1 / 0 / 1 / k / 2n hashes and damaged hash fields, overlay SKIP negative/huge, FRESH empty, ops dropped / duplicated. Every mutant goes to patcher.New/Resume with fresh and dry bowl and with a source-index whitelist (empty / one file: the skip path), rediff.NewContext/Optimize, ReadSignature+ComputeHashInfo+validating pool+AssertValid, OverlayPatchContext.Patch; oracle: the call returns (recover in the caller, child-exit attribution for panics in other goroutines, quiescence detector for hangs). distinct = distinct (stream, mode, framing, chunk, seed)",
 		Assumptions: []string{"output content is not judged", "a panic with 'out of memory' / 'makeslice: len out of range' would be classed out-of-domain (huge allocation); none is expected because all declared lengths are true"},
 		Cases:       c10Cases,
 		Run:         c10Run,
